@@ -241,12 +241,12 @@ package gtfs
 //@   loop 2 step [earlier-transfers-kept] forall k int :: 0 <= k && k < athead(2, len(transfers)) ==> transfers[k] == athead(2, transfers[k])
 //@   loop 2 decreases remaining(csv.csvReader)
 
-// a calendar row is accepted iff both dates parse and no required cell was found blank. (The seven weekday columns are
-// read through an array of column handles built in loop 1; tying each handle to its header by name needs facts about a
-// slice literal across calls that the solvers did not establish in time, so the weekday flags are not part of this
-// contract: see DESIGN.md, C11 limits.)
+// a calendar row is accepted iff both dates parse and no required cell was found blank. The seven weekday columns are
+// read through an array of column handles built in loop 1; loop 1's invariants tie handle j to the header named j
+// (as long as no required column is missing, nothing is written, so the slice literal of names keeps its contents).
 //@ pure func calAccepted(f *csv.File) bool = validDate("20060102", col(f, "start_date")) && validDate("20060102", col(f, "end_date")) && len(f.currentRow.missingKeys) == 0
-//@ pure func calFaithful(S Service, f *csv.File, tz *time.Location) bool = S.Id == col(f, "service_id") && S.StartDate == parsedDate("20060102", col(f, "start_date"), tz) && S.EndDate == parsedDate("20060102", col(f, "end_date"), tz) && len(S.AddedDates) == 0 && cap(S.AddedDates) == 0 && len(S.RemovedDates) == 0 && cap(S.RemovedDates) == 0
+//@ pure func dayColumnOK(c csv.RequiredColumn, f *csv.File, name string) bool = c.f == f && has(f.headerMap, name) && c.i == f.headerMap[name]
+//@ pure func calFaithful(S Service, f *csv.File, tz *time.Location) bool = S.Monday == (col(f, "monday") == "1") && S.Tuesday == (col(f, "tuesday") == "1") && S.Wednesday == (col(f, "wednesday") == "1") && S.Thursday == (col(f, "thursday") == "1") && S.Friday == (col(f, "friday") == "1") && S.Saturday == (col(f, "saturday") == "1") && S.Sunday == (col(f, "sunday") == "1") && S.Id == col(f, "service_id") && S.StartDate == parsedDate("20060102", col(f, "start_date"), tz) && S.EndDate == parsedDate("20060102", col(f, "end_date"), tz) && len(S.AddedDates) == 0 && cap(S.AddedDates) == 0 && len(S.RemovedDates) == 0 && cap(S.RemovedDates) == 0
 
 //@ func parseCalendar
 //@   props C01 C05 C06 C09 C11
@@ -254,8 +254,14 @@ package gtfs
 //@   requires [no-exceptions-yet] forall id string :: has(m, id) ==> len(m[id].AddedDates) == 0 && cap(m[id].AddedDates) == 0 && len(m[id].RemovedDates) == 0 && cap(m[id].RemovedDates) == 0
 //@   ensures [no-exceptions-yet] forall id string :: has(m, id) ==> len(m[id].AddedDates) == 0 && cap(m[id].AddedDates) == 0 && len(m[id].RemovedDates) == 0 && cap(m[id].RemovedDates) == 0
 //@   loop 1 invariant csvOK(f) && len(f.missingRequiredColumns) >= pre(len(f.missingRequiredColumns))
+//@   loop 1 step [unchanged-count-means-the-column-is-present] len(f.missingRequiredColumns) == athead(1, len(f.missingRequiredColumns)) ==> has(f.headerMap, days)
+//@   loop 1 step [present-column-writes-nothing] len(f.missingRequiredColumns) == athead(1, len(f.missingRequiredColumns)) ==> sameheapSinceHead(1, "string") && f.headerMap == athead(1, f.headerMap)
+//@   loop 1 step [count-only-grows] len(f.missingRequiredColumns) >= athead(1, len(f.missingRequiredColumns))
+//@   loop 1 invariant [nothing-written-unless-one-is-missing] len(f.missingRequiredColumns) == pre(len(f.missingRequiredColumns)) ==> sameheapSinceLoop("string") && f.headerMap == pre(f.headerMap)
+//@   loop 1 invariant [day-columns-by-name-unless-one-is-missing] len(f.missingRequiredColumns) == pre(len(f.missingRequiredColumns)) ==> ($i > 0 ==> dayColumnOK(dayColumns[0], f, "monday")) && ($i > 1 ==> dayColumnOK(dayColumns[1], f, "tuesday")) && ($i > 2 ==> dayColumnOK(dayColumns[2], f, "wednesday")) && ($i > 3 ==> dayColumnOK(dayColumns[3], f, "thursday")) && ($i > 4 ==> dayColumnOK(dayColumns[4], f, "friday")) && ($i > 5 ==> dayColumnOK(dayColumns[5], f, "saturday")) && ($i > 6 ==> dayColumnOK(dayColumns[6], f, "sunday"))
 //@   loop 1 invariant forall j int :: 0 <= j && j < $i ==> dayColumns[j].f == f && ((0 <= dayColumns[j].i && dayColumns[j].i < len(f.headerContent)) || len(f.missingRequiredColumns) > 0)
 //@   loop 2 invariant csvOK(f) && f.csvReader == old(f.csvReader)
+//@   loop 2 invariant [day-columns-by-name] dayColumnOK(dayColumns[0], f, "monday") && dayColumnOK(dayColumns[1], f, "tuesday") && dayColumnOK(dayColumns[2], f, "wednesday") && dayColumnOK(dayColumns[3], f, "thursday") && dayColumnOK(dayColumns[4], f, "friday") && dayColumnOK(dayColumns[5], f, "saturday") && dayColumnOK(dayColumns[6], f, "sunday")
 //@   loop 2 invariant [no-exceptions-yet] forall id string :: has(m, id) ==> len(m[id].AddedDates) == 0 && cap(m[id].AddedDates) == 0 && len(m[id].RemovedDates) == 0 && cap(m[id].RemovedDates) == 0
 //@   loop 2 step [rows-with-missing-keys-are-inert] len(f.currentRow.missingKeys) > 0 ==> (forall k string :: has(m, k) == athead(2, has(m, k)) && m[k] == athead(2, m[k]))
 //@   loop 2 step [rows-with-unparseable-dates-are-inert] len(f.currentRow.missingKeys) == 0 && (!validDate("20060102", col(f, "start_date")) || !validDate("20060102", col(f, "end_date"))) ==> (forall k string :: has(m, k) == athead(2, has(m, k)) && m[k] == athead(2, m[k]))
